@@ -1039,8 +1039,15 @@ impl Compiler {
                         // We want to assign the slice containing all but the last two items to
                         // the given id.
                         let id_register = self.assign_local_register(*id)?;
-                        let to_index = -(args.len() as i8 - 1) as u8;
-                        self.push_op(SliceTo, &[id_register, container_register, to_index]);
+                        if is_last_arg {
+                            // e.g. [all...]
+                            // There are no following items, so the slice contains everything
+                            // (an end index of -0 would produce an empty slice).
+                            self.push_op(SliceFrom, &[id_register, container_register, 0]);
+                        } else {
+                            let to_index = -(args.len() as i8 - 1) as u8;
+                            self.push_op(SliceTo, &[id_register, container_register, to_index]);
+                        }
                     }
 
                     index_from_end = true;
